@@ -31,7 +31,11 @@ import zipfile
 from pv import codec
 from pv.nat import lib
 
-LIMIT = 20.0            # wall-clock bound of one translation request (DESIGN C06: wall < 20 s)
+if os.path.isdir('/dev/shm') and os.access('/dev/shm', os.W_OK):
+    import tempfile
+    tempfile.tempdir = '/dev/shm'      # lib.scratch() and openpyxl's temporary files: memory-backed, much faster than /tmp here
+
+LIMIT = 20.0            # bound of one translation request (DESIGN C06: wall < 20 s), measured as CPU seconds, see _catch
 EVAL_LIMIT = 10.0       # bound for evaluating one member (a timeout there is not counted: no clause)
 MEMBER = re.compile(r'^_(\d+)_(\d+)_(\d+)$')
 MEMBERISH = re.compile(r'^_\d+_\d+_(\d+|any)(_\d+)?$')
@@ -49,29 +53,39 @@ def _alarm(sig, frm):
 
 
 def _catch(f, *a, limit=LIMIT):
-    """-> ('ok', value, secs) | ('raised', codec.Raised(+ .lib), secs) | ('timeout', None, secs)"""
-    old = signal.signal(signal.SIGALRM, _alarm)
-    t0 = time.time()
-    signal.setitimer(signal.ITIMER_REAL, limit)
+    """-> ('ok', value, secs) | ('raised', codec.Raised(+ .lib), secs) | ('timeout', None, secs)
+    The limit is CPU time of this process (ITIMER_PROF), which equals wall clock on an idle machine and does not depend on what
+    else runs on the host; a wall-clock alarm of 30 x limit backs it up (blocking calls)."""
+    old = signal.signal(signal.SIGPROF, _alarm)
+    old2 = signal.signal(signal.SIGALRM, _alarm)
+    t0 = time.process_time()
+
+    def off():
+        signal.setitimer(signal.ITIMER_PROF, 0)
+        signal.setitimer(signal.ITIMER_REAL, 0)
+    signal.setitimer(signal.ITIMER_PROF, limit)
+    signal.setitimer(signal.ITIMER_REAL, 30 * limit)
     try:
         try:
             v = f(*a)
-            signal.setitimer(signal.ITIMER_REAL, 0)
-            return 'ok', v, time.time() - t0
+            off()
+            return 'ok', v, time.process_time() - t0
         except _Timeout:
-            return 'timeout', None, time.time() - t0
+            off()
+            return 'timeout', None, time.process_time() - t0
         except BaseException as e:  # noqa
-            signal.setitimer(signal.ITIMER_REAL, 0)
+            off()
             from excel2pycl.src.exceptions import E2PyclException
             r = codec.Raised(type(e).__name__, ('recursion' if isinstance(e, RecursionError) else str(e))[:200],
                              [c.__name__ for c in type(e).__mro__])
             r.lib = isinstance(e, E2PyclException)
-            return 'raised', r, time.time() - t0
+            return 'raised', r, time.process_time() - t0
     except _Timeout:          # the alarm fired inside a handler above
-        return 'timeout', None, time.time() - t0
+        return 'timeout', None, time.process_time() - t0
     finally:
-        signal.setitimer(signal.ITIMER_REAL, 0)
-        signal.signal(signal.SIGALRM, old)
+        off()
+        signal.signal(signal.SIGPROF, old)
+        signal.signal(signal.SIGALRM, old2)
 
 
 # ---------------------------------------------------------------------------------------------- result accumulator
@@ -89,8 +103,9 @@ class Res:
             self.nontrivial[check] += 1
 
     def fail(self, check, key, what, replay):
+        focus = (replay.get('spec') or {}).get('focus') if isinstance(replay, dict) else None
         self.fails.append({'check': check, 'key': key, 'what': what[:400], 'replay': replay,
-                           'size': len(json.dumps(replay, default=str))})
+                           'size': len(focus) if focus else len(json.dumps(replay, default=str))})
 
     def sample(self, check, s):
         if len(self.samples[check]) < 2:
@@ -101,9 +116,21 @@ class Res:
                 'outcomes': self.outcomes}
 
 
+def _fam(spec):
+    """family of the workbook, refined by the outermost function of the formula under test (formula shape)"""
+    fam = spec.get('family', 'wb')
+    f = spec.get('focus')
+    if f and fam != 'soup':
+        m = re.search(r'([A-Za-z]{2,})\(', f)
+        fam += '.' + (m.group(1).upper() if m else 'expression')
+    return fam
+
+
 def _short(spec):
     """one-line description of a specification"""
     fs = [str(v) for sh in spec['sheets'] for _, _, v in sh['cells'] if isinstance(v, str) and v.startswith('=')]
+    if spec.get('focus'):
+        fs = [spec['focus']]
     t = [sh['title'] for sh in spec['sheets']]
     s = f"titles={t!r} formulas={fs[:3]!r}"
     if spec.get('entry') is not None:
@@ -210,13 +237,13 @@ def _new_parser(path, entry, safety, parser=None):
 
 def _outcome(R, check, spec, st, replay, secs_note=''):
     """the clause 'terminates, and raises only library exceptions or returns text'; True if text was returned"""
-    fam = spec.get('family', 'wb')
+    fam = _fam(spec)
     kind, val, secs = st
     R.count(check, nontrivial=(kind == 'ok'))
     R.outcomes[kind if kind != 'raised' else ('lib' if val.lib else 'foreign')] = \
         R.outcomes.get(kind if kind != 'raised' else ('lib' if val.lib else 'foreign'), 0) + 1
     if kind == 'timeout':
-        R.fail(check, f'C06.hang.{fam}', f'{_short(spec)} -> no result after {LIMIT:.0f} s; expected termination', replay)
+        R.fail(check, f'C06.hang.{fam}', f'{_short(spec)} -> no result after {LIMIT:.0f} s of CPU time; expected termination', replay)
         return False
     if kind == 'raised':
         if not val.lib:
@@ -232,17 +259,20 @@ def _outcome(R, check, spec, st, replay, secs_note=''):
 
 def _member_cells(spec, cells):
     """translated cells that must have a member: (sheet, col0, row0, expected value or None for unknown)"""
-    if spec.get('entry') is None:
-        return [(s, c - 1, r - 1, v) for s, d in enumerate(cells) for (c, r), v in sorted(d.items(), key=lambda x: (x[0][1], x[0][0]))]
+    if spec.get('entry') is None:       # formulas first (the number of evaluated members is capped), then row by row
+        return [(s, c - 1, r - 1, v) for s, d in enumerate(cells)
+                for (c, r), v in sorted(d.items(), key=lambda x: (not _is_formula(x[1]), x[0][1], x[0][0]))]
     out = []
-    for s, c0, r0 in [spec['entry_resolved']] + [tuple(x) for x in spec.get('deps', [])]:
-        out.append((s, c0, r0, cells[s].get((c0 + 1, r0 + 1))))
+    for n, (s, c0, r0) in enumerate([tuple(spec['entry_resolved'])] + [tuple(x) for x in spec.get('deps', [])]):
+        v = cells[s].get((c0 + 1, r0 + 1)) if 0 <= s < len(cells) else None
+        if n == 0 or v is not None:         # a blank cell that is read needs no member of its own
+            out.append((s, c0, r0, v))
     return out
 
 
 def _load(R, spec, text, titles, cells, replay):
     """clause 'compiles, defines the class with the workbook's titles and sizes'; -> (cls, tree members) or None"""
-    fam = spec.get('family', 'wb')
+    fam = _fam(spec)
     R.count('loadable')
     try:
         tree = ast.parse(text)
@@ -313,7 +343,7 @@ def _evaluate(ex, s, c0, r0):
 def _members(R, spec, cls, members, cells, replay, cap=400):
     """clause 'one evaluable member per translated cell'; -> {(s, c0, r0): encoded value or exception} (object route)"""
     from excel2pycl import Executor
-    fam = spec.get('family', 'wb')
+    fam = _fam(spec)
     values = {}
     st = _catch(lambda: Executor().set_executed_class(class_object=cls))
     if st[0] != 'ok':
@@ -341,8 +371,9 @@ def _members(R, spec, cls, members, cells, replay, cap=400):
                 R.fail('members', f'C06.member.constant.{type(v).__name__}.{fam}', f'{_short(spec)} -> member {name} of constant '
                        f'{v!r} evaluates to {got!r}; expected the constant', replay)
         elif kind == 'raised':
-            if spec.get('strict') or got.cls in STRUCTURAL:
-                R.fail('members', f'C06.member.raises.{got.cls}.{fam}', f'{_short(spec)} -> member {name} ({str(v)[:80]!r}) raises '
+            if spec.get('strict') or (got.cls in STRUCTURAL and (got.cls != 'AttributeError' or "'ExcelInPython' object" in got.msg)):
+                m = re.match(r'^=\W*([A-Z]+)\(', str(v))
+                R.fail('members', f'C06.member.raises.{got.cls}.{m.group(1) if m else "expression"}.{fam}', f'{_short(spec)} -> member {name} ({str(v)[:80]!r}) raises '
                        f'{got.cls}: {got.msg[:100]}; expected an evaluable member', replay)
         if kind == 'ok' and (s, c0, r0) in expect:
             e = codec.dec(expect[(s, c0, r0)])
@@ -357,7 +388,7 @@ def _members(R, spec, cls, members, cells, replay, cap=400):
 def _file_vs_object(R, spec, text, parser, cls, ex_obj, obj_values, cells, d, replay):
     """clause 'behaves the same whether loaded from the written file or used as a class object'"""
     from excel2pycl import Executor, Cell
-    fam = spec.get('family', 'wb')
+    fam = _fam(spec)
     pyfile = os.path.join(d, spec.get('pyname', 'translated_class.py'))
     R.count('file_vs_object')
     st = _catch(parser.write_translation, pyfile)
@@ -435,13 +466,20 @@ def _resolve_entry(entry, titles):
     return s, c0, r0
 
 
+_READBACK = {}
+
+
 def _examine_in(R, spec, d, replay=None, light=False):
     """all clauses on one request; returns (text or None, object-route values)"""
     replay = replay or {'kind': 'spec', 'spec': spec}
     path = os.path.join(d, spec.get('xlsx', 'wb.xlsx'))
     if not os.path.exists(path):
         _write(spec, path)
-    titles, cells = _readback(path)
+        _READBACK.pop(path, None)
+    if path not in _READBACK:
+        _READBACK.clear()
+        _READBACK[path] = _readback(path)
+    titles, cells = _READBACK[path]
     spec = dict(spec)
     if spec.get('entry') is not None:
         spec['entry_resolved'] = _resolve_entry(spec['entry'], titles)
@@ -479,7 +517,7 @@ def _examine(spec):
                 if t2 is not None and key in v2 and key in values:
                     R.count('entry_point')
                     if v2[key] != values[key] and not (isinstance(values[key], dict) and '$exc' in values[key]):
-                        R.fail('entry_point', f'C06.entry.value.{spec.get("family", "wb")}', f'{_short(sub)} -> entry member evaluates to '
+                        R.fail('entry_point', f'C06.entry.value.{_fam(spec)}', f'{_short(sub)} -> entry member evaluates to '
                                f'{v2[key]!r}, the whole-file translation to {values[key]!r}', {'kind': 'spec', 'spec': spec})
                     R.sample('entry_point', {'workbook': _short(sub), 'value': v2[key]})
     return R.dump()
@@ -488,34 +526,35 @@ def _examine(spec):
 # ---------------------------------------------------------------------------------------------- many formulas, one workbook
 BASE_CELLS = [[1, 1, 1], [2, 1, 2], [3, 1, 3], [1, 2, 4], [2, 2, {'$f': '5.5'}], [3, 2, 6], [1, 3, 7], [2, 3, 8], [3, 3, 9],
               [4, 1, 'apple'], [4, 2, 'pear'], [4, 3, 'fig'], [5, 1, {'$dt': [2020, 1, 31, 0, 0, 0, 0]}],
-              [5, 2, {'$dt': [2021, 3, 1, 0, 0, 0, 0]}], [5, 3, {'$dt': [2024, 2, 29, 12, 30, 0, 0]}]]
+              [5, 2, {'$dt': [2021, 3, 1, 0, 0, 0, 0]}], [5, 3, {'$dt': [2024, 2, 29, 12, 30, 0, 0]}], [8, 1, '=A1+1'], [8, 2, '=H1*2']] + \
+    [[c, r, f'r{r}c{c}'] for r in (11, 12, 13) for c in range(1, 10)]      # constants in the rows of the whole-file formulas
+FCOL, FROW = 11, 11      # formulas under test live in K11, K12, ...: no reference of the corpus / soups reaches them
 BULK_TITLES = ['S', 'Other sheet']
 
 
 def _bulk_spec(formula, row, family, safety=False, entry=True):
-    sp = {'sheets': [{'title': BULK_TITLES[0], 'cells': BASE_CELLS + [[8, row, formula]]},
+    sp = {'sheets': [{'title': BULK_TITLES[0], 'cells': BASE_CELLS + [[FCOL, FROW + row - 1, formula]]},
                      {'title': BULK_TITLES[1], 'cells': [[1, 1, 10], [2, 2, 'x']]}],
-          'safety': safety, 'family': family}
+          'safety': safety, 'family': family, 'focus': formula}
     if entry:
-        sp['entry'] = [0, 7, row - 1]
+        sp['entry'] = [0, FCOL - 1, FROW + row - 2]
     return sp
 
 
 def _examine_bulk(job):
-    """worker: formulas of one family in column H of one workbook, each requested as an entry point on a fresh Parser"""
+    """worker: formulas of one family in column K of one workbook, each requested as an entry point on a fresh Parser"""
     R = Res()
     formulas, family = job['formulas'], job['family']
     with lib.scratch() as d:
-        spec = {'sheets': [{'title': BULK_TITLES[0], 'cells': BASE_CELLS + [[8, i + 1, f] for i, f in enumerate(formulas)]},
+        spec = {'sheets': [{'title': BULK_TITLES[0], 'cells': BASE_CELLS + [[FCOL, FROW + i, f] for i, f in enumerate(formulas)]},
                            {'title': BULK_TITLES[1], 'cells': [[1, 1, 10], [2, 2, 'x']]}], 'safety': False, 'family': family}
         try:
             _write(spec, os.path.join(d, 'wb.xlsx'))
         except Exception as e:  # a formula openpyxl cannot store is not a readable workbook: no clause
             return R.dump()
         for i, f in enumerate(formulas):
-            single = _bulk_spec(f, i + 1, family)
-            sub = dict(spec, entry=[0, 7, i], deps=[])
-            _examine_in(R, sub, d, replay={'kind': 'spec', 'spec': single}, light=True)
+            sub = dict(spec, entry=[0, FCOL - 1, FROW + i - 1], deps=[], focus=f)
+            _examine_in(R, sub, d, replay={'kind': 'spec', 'spec': sub}, light=True)
     return R.dump()
 
 
@@ -565,7 +604,7 @@ LADDERS = {
     'left_nested': [1, 2, 4, 8, 16, 32, 64], 'unary_minus': [1, 2, 8, 32, 64, 128, 255], 'percent': [1, 2, 8, 32, 64, 255],
     'plus_chain': [2, 10, 100, 255, 500, 1000, 2000, 4000], 'concat_chain': [2, 10, 100, 255, 1000, 2700],
     'compare_chain': [2, 3, 10, 100, 1000], 'sum_args': [1, 30, 100, 255], 'concatenate_args': [1, 30, 100, 255],
-    'ifs_pairs': [1, 2, 10, 60, 127], 'long_text': [1, 255, 1000, 8000], 'reference_chain': [2, 10, 100, 300, 1000, 3000],
+    'ifs_pairs': [1, 2, 10, 60, 127], 'long_text': [1, 255, 1000, 8000], 'reference_chain': [2, 11, 100, 151, 301, 1000, 3001],
 }
 
 
@@ -593,3 +632,719 @@ def _examine_ladder(job):
             if any(f['key'].startswith('C06.hang') for f in R.fails[before:]):
                 break
     return R.dump()
+
+
+# ---------------------------------------------------------------------------------------------- one Parser, several requests
+def _reuse_workbooks():
+    """name -> specification; the requests of a sequence refer to them by name"""
+    good1 = {'sheets': [{'title': 'First', 'cells': [[1, 1, 2], [2, 1, '=A1*3'], [1, 2, 'txt'], [3, 3, '=SUM(A1:B1)']]},
+                        {'title': 'Second one', 'cells': [[1, 1, 10], [2, 2, '=A1+First!A1']]}]}
+    good2 = {'sheets': [{'title': 'Zeta', 'cells': [[1, 1, 5], [2, 1, '=A1+1'], [4, 5, {'$dt': [2020, 5, 6, 0, 0, 0, 0]}]]}]}
+    malformed = {'sheets': [{'title': 'First', 'cells': [[1, 1, 2], [2, 1, '=A1*'], [3, 1, '=A1+1']]}]}
+    unsupported = {'sheets': [{'title': 'U', 'cells': [[1, 1, 2], [2, 1, '=ABS(A1)']]}]}
+    unsafe = {'sheets': [{'title': 'First', 'cells': [[1, 1, 'os.system(1)'], [2, 1, '=A1&"x"'], [3, 1, 4]]}]}
+    cyclic = {'sheets': [{'title': 'C', 'cells': [[1, 1, '=B1+1'], [2, 1, '=A1+1'], [3, 1, 1]]}]}
+    return {'good1': good1, 'good2': good2, 'malformed': malformed, 'unsupported': unsupported, 'unsafe': unsafe, 'cyclic': cyclic}
+
+
+# request = [workbook name, entry or None, safety, how]   how: 'get' | 'write' | 'get2' (ask twice)
+REUSE_REQUESTS = [
+    ['good1', None, True, 'get'], ['good1', None, True, 'write'], ['good2', None, True, 'get'], ['malformed', None, True, 'get'],
+    ['malformed', None, True, 'write'], ['malformed', [0, 2, 0], True, 'get'], ['malformed', [0, 1, 0], True, 'get'],
+    ['unsupported', None, False, 'get'], ['unsafe', None, True, 'get'], ['unsafe', None, False, 'get'], ['unsafe', None, True, 'write'],
+    ['cyclic', None, True, 'get'], ['cyclic', [0, 2, 0], True, 'get'], ['good1', ['Second one', 'B', '2'], True, 'get'],
+    ['good1', [0, 1, 0], False, 'get'], ['good2', [0, 1, 0], True, 'get2'], ['good1', [0, 2, 2], True, 'write'],
+]
+
+
+def _examine_reuse(job):
+    """worker: sequences of requests on ONE Parser; every answer must be the answer a new Parser gives to that request alone"""
+    from excel2pycl import Parser, Cell
+    R = Res()
+    books = _reuse_workbooks()
+    with lib.scratch() as d:
+        paths = {}
+        for name, sp in books.items():
+            paths[name] = os.path.join(d, name + '.xlsx')
+            _write(sp, paths[name])
+        alone = {}
+
+        def ask(parser, req, out):
+            name, entry, safety, how = req
+            if safety:
+                parser.enable_safety_check()
+            else:
+                parser.disable_safety_check()
+            parser.set_excel_file_path(paths[name])
+            parser.set_entrypoint_cell(Cell(*entry) if entry is not None else None)
+            if os.path.exists(out):
+                os.remove(out)
+            if how == 'write':
+                st = _catch(parser.write_translation, out)
+                if st[0] == 'ok':
+                    with open(out, encoding='utf-8', newline='') as f:
+                        st = ('ok', f.read(), st[2])
+                elif os.path.exists(out):
+                    st = ('ok', '<<file written although the request failed>>', st[2])
+                return st
+            st = _catch(parser.get_translation)
+            if how == 'get2' and st[0] == 'ok':
+                st2 = _catch(parser.get_translation)
+                if st2[0] != 'ok' or st2[1] != st[1]:
+                    return ('ok', f'<<second identical request answered differently: {st2[0]}>>', st[2])
+            return st
+
+        def norm(st):
+            if st[0] == 'raised':
+                return ['raised', st[1].cls, bool(st[1].lib)]
+            return [st[0], st[1]]
+        for i, req in enumerate(REUSE_REQUESTS):
+            alone[i] = norm(ask(Parser(), req, os.path.join(d, 'alone.py')))
+        for seq in job['sequences']:
+            parser = Parser()
+            for pos, i in enumerate(seq):
+                got = norm(ask(parser, REUSE_REQUESTS[i], os.path.join(d, 'seq.py')))
+                R.count('parser_reuse', nontrivial=pos > 0)
+                if got != alone[i]:
+                    def brief(x):
+                        return x[:1] + [str(v)[:60] if not isinstance(v, str) or len(v) < 60 else f'text#{hash(v) % 10000}' for v in x[1:]]
+                    prev = REUSE_REQUESTS[seq[pos - 1]] if pos else None
+                    tag = ('after_' + (alone[seq[pos - 1]][0] if pos else 'nothing'))
+                    R.fail('parser_reuse', f'C06.reuse.{tag}.{alone[i][0]}_becomes_{got[0]}',
+                           f'requests {[REUSE_REQUESTS[j] for j in seq[:pos + 1]]!r} on one Parser: the last one answers {brief(got)!r}; '
+                           f'a new Parser answers {brief(alone[i])!r}', {'kind': 'reuse', 'sequence': list(seq[:pos + 1])})
+                    break
+        R.sample('parser_reuse', {'sequence': [REUSE_REQUESTS[i] for i in job['sequences'][0]],
+                                  'answers': [alone[i][0] for i in job['sequences'][0]]})
+        # the answers a new Parser gives are themselves checked against the workbook (whole contract)
+        if job.get('verify_alone'):
+            for i, req in enumerate(REUSE_REQUESTS):
+                name, entry, safety, how = req
+                spec = dict(books[name], safety=safety, family='reuse.' + name, xlsx=name + '.xlsx')
+                if entry is not None:
+                    spec['entry'] = entry
+                _examine_in(R, spec, d, replay={'kind': 'spec', 'spec': {k: v for k, v in spec.items() if k != 'xlsx'}})
+    return R.dump()
+
+
+def _examine_executor_reuse(job):
+    """worker: one Executor given a class object and then a class file (and back) behaves like a new Executor"""
+    from excel2pycl import Parser, Executor, Cell
+    R = Res()
+    books = _reuse_workbooks()
+    with lib.scratch() as d:
+        info = {}
+        for name in ('good1', 'good2'):
+            p = os.path.join(d, name + '.xlsx')
+            _write(books[name], p)
+            parser = _new_parser(p, None, True)
+            text = parser.get_translation()
+            parser.write_translation(os.path.join(d, name + '.py'))
+            titles, cells = _readback(p)
+            info[name] = (lib.load_class_from_text(text), os.path.join(d, name + '.py'),
+                          [(s, c - 1, r - 1) for s, dd in enumerate(cells) for (c, r) in dd])
+
+        def values(ex, name):
+            return [_enc_value(_evaluate(ex, *k)[1]) for k in info[name][2]]
+        for order in itertools.permutations([('good1', 'object'), ('good2', 'file'), ('good1', 'file'), ('good2', 'object')], 3):
+            ex = Executor()
+            for name, route in order:
+                kw = {'class_object': info[name][0]} if route == 'object' else {'class_file': info[name][1]}
+                st = _catch(lambda: ex.set_executed_class(**kw))
+                fresh = Executor().set_executed_class(class_object=info[name][0])
+                R.count('file_vs_object')
+                if st[0] != 'ok' or values(ex, name) != values(fresh, name) or ex.get_executed_class().get_titles() != \
+                        fresh.get_executed_class().get_titles():
+                    R.fail('file_vs_object', 'C06.file.executor_reuse', f'one Executor given {order!r}: after {name} via {route} it '
+                           f'differs from a new Executor on the class object ({st[0]} {st[1] if st[0] != "ok" else ""})',
+                           {'kind': 'executor_reuse'})
+                    break
+    return R.dump()
+
+
+# ---------------------------------------------------------------------------------------------- the generator
+TITLES = ['S', 'Sheet1', 'Data 2024', "it's", 'a"b', '{0}', '{titles}', '%s %d', 'Лист1', '1', '2024', 'A1', 'TRUE', 'SUM',
+          ' lead', 'trail ', 'tab\there', 'a.b', 'a!b', 'x;y,z', '=1+1', '#REF!', '(S)', 'x' * 31, 'self', '__class__', 'ß€😀',
+          "'q", 'a&b<c>', 'new\nline', "d'Or \"x\" {y}", 'None', '-1', 'x+y', 'S!A1']
+
+
+def _quote_title(t):
+    """Excel's own syntax for a sheet-qualified reference"""
+    if re.match(r'^[A-Za-z_][A-Za-z0-9_]*$', t) and not re.match(r'^[A-Za-z]{1,3}[0-9]+$', t) and t not in ('TRUE', 'FALSE'):
+        return t
+    return "'" + t.replace("'", "''") + "'"
+
+
+def _col(c):
+    from openpyxl.utils import get_column_letter
+    return get_column_letter(c)
+
+
+def _atom(x):
+    """a literal, a plain reference, or one bracketed group"""
+    if x.isalnum():
+        return True
+    if not (x.startswith('(') and x.endswith(')')):
+        return False
+    depth = 0
+    for i, ch in enumerate(x):
+        depth += ch == '('
+        depth -= ch == ')'
+        if depth == 0 and i < len(x) - 1:
+            return False
+    return True
+
+
+def _scan_refs(formula, s, titles):
+    """cells a generated formula reads, as [sheet, col0, row0] (oracle side; the generator's own reference syntax)"""
+    from openpyxl.utils import column_index_from_string
+    prefixes = sorted(((_quote_title(t) + '!', i) for i, t in enumerate(titles)), key=lambda x: -len(x[0]))
+    formula = re.sub(r'COLUMN\([^)]*\)', 'COLUMN()', formula)      # COLUMN(ref) reads the address, not the cell
+    out, i, n = set(), 1, len(formula)
+    ref = re.compile(r'\$?([A-Z]{1,3})\$?(\d+)(?::\$?([A-Z]{1,3})\$?(\d+))?(?![\w(])')
+    while i < n:
+        sheet = s
+        for p, idx in prefixes:
+            if formula.startswith(p, i):
+                sheet, i = idx, i + len(p)
+                break
+        else:
+            if formula[i] == '"':                       # text literal ("" is an escaped quote: two literals in a row)
+                j = formula.index('"', i + 1)
+                i = j + 1
+                continue
+        m = ref.match(formula, i)
+        if m and (i == 0 or not (formula[i - 1].isalnum() or formula[i - 1] == '_')  or formula[i - 1] == '!'):
+            c1, r1 = column_index_from_string(m.group(1)), int(m.group(2))
+            c2, r2 = (column_index_from_string(m.group(3)), int(m.group(4))) if m.group(3) else (c1, r1)
+            for c in range(c1, c2 + 1):
+                for r_ in range(r1, r2 + 1):
+                    out.add((sheet, c - 1, r_ - 1))
+            i = m.end()
+        else:
+            i += 1
+    return [list(x) for x in sorted(out)]
+
+
+class Gen:
+    """Ordinary workbooks: 1-3 sheets, ragged rows of mixed constants in columns A-F, well-typed formulas in columns H-J.
+    Column A/B: numbers or blank, C: text, D: dates, E/F: anything.  Formulas read numbers from A/B (also past the end of a
+    short row, below the last row, on other sheets), text from C, dates from D, so every formula has a value in Excel."""
+
+    def __init__(self, rng):
+        self.rng = rng
+
+    def constant(self, col):
+        r = self.rng
+        if col in (1, 2):
+            return r.choice([0, 1, 2, 3, 7, 10, 100, 101, 1000, 1001, -4, {'$f': '2.5'}, {'$f': '0.1'}, {'$f': '-868.5'},
+                             12345678901, None, None])
+        if col == 3:
+            return r.choice(['apple', 'pear', "it's", 'a"b', '{x}', 'Привет', 'a*b', 'x' * 60, '12', ' ', 'TRUE', '#N/A', 'line\nbreak',
+                             '\\n', "'", '%s'])
+        if col == 4:
+            return r.choice([{'$dt': [2020, 1, 31, 0, 0, 0, 0]}, {'$dt': [2024, 2, 29, 0, 0, 0, 0]}, {'$dt': [2051, 6, 1, 0, 0, 0, 0]},
+                             {'$dt': [2001, 12, 31, 23, 59, 59, 0]}, {'$dt': [2010, 5, 5, 0, 0, 0, 0]}])
+        return r.choice([True, False, 5, {'$f': '1.5'}, 'mixed', {'$dt': [2022, 2, 2, 0, 0, 0, 0]}, {'$tm': [3, 4, 5, 0]},
+                         {'$td': [1, 3600]}, None, '#DIV/0!', 0])
+
+    def workbook(self, index):
+        r = self.rng
+        ns = r.choice([1, 1, 2, 2, 3])
+        titles = r.sample(TITLES, ns)
+        if index % 7 == 0:
+            titles[0] = 'S'
+        sheets, self.kinds = [], []
+        for s in range(ns):
+            nrows = r.choice([1, 2, 3, 3, 5, 8])
+            cells, kinds = [], {}
+            for row in range(1, nrows + 1):
+                length = r.choice([0, 1, 2, 3, 4, 6, 6, 6])
+                if row == 1:
+                    length = 6
+                for col in range(1, length + 1):
+                    v = self.constant(col)
+                    if v is not None:
+                        cells.append([col, row, v])
+                        kinds[(col, row)] = v
+            if index % 11 == 0 and s == 0:      # rows far apart: row > 100 and > 1000, column AAA
+                cells.append([1, 150, 7])
+                cells.append([2, 1200, 8])
+                cells.append([703, 2, 9])
+                kinds[(1, 150)], kinds[(2, 1200)], kinds[(703, 2)] = 7, 8, 9
+            sheets.append({'title': titles[s], 'cells': cells, 'nrows': nrows})
+            self.kinds.append(kinds)
+        self.titles, self.sheets = titles, sheets
+        entries, expect = [], []
+        shared = self.formula(0, 1)[0] if ns > 1 and r.random() < 0.5 else None   # the same formula text on two sheets
+        for s in range(ns):
+            nf = r.choice([1, 2, 3, 4])
+            for k in range(nf):
+                row = k + 1
+                for col in (8, 9, 10)[:r.choice([1, 1, 2, 3])]:
+                    if shared and col == 8 and row == 1:
+                        f, _ = self.formula(0, 1, fixed=shared)
+                    else:
+                        f, val = self.formula(s, row)
+                        if val is not None:
+                            expect.append([s, col - 1, row - 1, val])
+                    sheets[s]['cells'].append([col, row, f])
+                    if len(entries) < 4:
+                        entries.append({'cell': [s, col - 1, row - 1], 'deps': _scan_refs(f, s, titles)})
+        overrides = []
+        for _ in range(r.choice([0, 1, 2, 3])):
+            s = r.randrange(ns)
+            c0, r0 = r.choice([(0, 0), (1, 0), (0, 1), (1, 2), (3, 1), (5, 0), (0, 9), (11, 0), (30, 40), (7, 0), (2, 0)])
+            overrides.append([s, c0, r0, r.choice([7, {'$f': '2.5'}, 'over', True, 0, {'$dt': [2023, 3, 3, 0, 0, 0, 0]}, 1001])])
+        for sh in sheets:
+            sh.pop('nrows', None)
+        # overrides may change what formulas return, so the expected values only hold before them (they are checked before)
+        return {'sheets': sheets, 'safety': bool(index % 3), 'family': 'generator', 'strict': True, 'entries': entries,
+                'expect': expect, 'overrides': overrides, 'pyname': ['translated_class.py', 'мой класс 1.py', 'a b.py'][index % 3]}
+
+    # typed holes -------------------------------------------------------------------------------
+    def ref(self, s, col, row, other=None):
+        """text of a reference from sheet s to (col,row) of sheet `other` (default: the same sheet, unqualified)"""
+        r = self.rng
+        a = r.choice(['{c}{r}', '{c}{r}', '${c}${r}', '{c}${r}', '${c}{r}']).format(c=_col(col), r=row)
+        t = s if other is None else other
+        if other is None and r.random() < 0.8:
+            return a
+        return _quote_title(self.titles[t]) + '!' + a
+
+    def numref(self, s):
+        """a reference whose value is a number or blank: columns A/B of any row up to two below the last one"""
+        r = self.rng
+        t = r.randrange(len(self.sheets)) if r.random() < 0.25 else s
+        nrows = self.sheets[t]['nrows']
+        col, row = r.choice([1, 2]), r.randint(1, nrows + 2)
+        if r.random() < 0.1:
+            col, row = r.choice([(12, 1), (1, 150), (2, 1200), (703, 2), (16384, 1), (27, 3)])
+        return self.ref(s, col, row, None if t == s else t), self.kinds[t].get((col, row))
+
+    def numval(self, enc):
+        if enc is None:
+            return 0
+        v = codec.dec(enc)
+        return v
+
+    def num(self, s, depth=0):
+        """(text, exact value or None)"""
+        r = self.rng
+        k = r.choice(['lit', 'ref', 'ref', 'ref', 'op', 'fn'] if depth < 2 else ['lit', 'ref'])
+        if k == 'lit':
+            v = r.choice([0, 1, 2, 10, 100, 1000, 1.5, 0.25, 26, 27, 703, 2050])
+            return (repr(v), v)
+        if k == 'ref':
+            t, enc = self.numref(s)
+            return t, self.numval(enc)
+        if k == 'op':
+            (a, va), (b, vb) = self.num(s, depth + 1), self.num(s, depth + 1)
+            op = r.choice(['+', '-', '*'])
+            val = None
+            if va is not None and vb is not None and all(isinstance(x, int) and abs(x) < 10 ** 6 for x in (va, vb)):
+                val = {'+': va + vb, '-': va - vb, '*': va * vb}[op]
+            if not (_atom(a) and _atom(b)):
+                val = None
+            if r.random() < 0.3:
+                return f'({a}{op}{b})', val
+            return f'{a}{op}{b}', val
+        (a, va) = self.num(s, depth + 1)
+        (b, vb) = self.num(s, depth + 1)
+        rows = self.sheets[s]['nrows']
+        rng_ = f'A1:A{rows + 1}'
+        which = r.choice(['SUM', 'SUM2', 'MAX', 'MIN', 'ROUND', 'ROUNDUP', 'ROUNDDOWN', 'IF', 'IF2', 'AVERAGE', 'COUNT', 'IFERROR',
+                          'YEAR', 'PERCENT', 'NEG', 'SUMROW', 'MATRIX', 'COUNTBLANK'])
+        if which == 'SUM':
+            return f'SUM({rng_})', None
+        if which == 'SUM2':
+            return f'SUM({a},{b},{rng_})', None
+        if which == 'MAX':
+            return f'MAX({rng_},{a})', None
+        if which == 'MIN':
+            return f'MIN({a};{b};{r.choice([0, 5])})', None
+        if which in ('ROUND', 'ROUNDUP', 'ROUNDDOWN'):
+            return f'{which}({a},{r.choice([0, 1, 2])})', None
+        if which == 'IF':
+            return f'IF({a}>{b},{a},{b})', None
+        if which == 'IF2':
+            return f'IF({a}={b}, 1, 0)', None
+        if which == 'AVERAGE':
+            return f'AVERAGE({rng_},{a},1)', None
+        if which == 'COUNT':
+            return f'COUNT({rng_})', None
+        if which == 'IFERROR':
+            return f'IFERROR({a}/{r.choice([2, 4])},{b})', None
+        if which == 'YEAR':
+            return f'{r.choice(["YEAR", "MONTH", "DAY"])}(D1)', None
+        if which == 'PERCENT':
+            return f'{a}%' if a.replace('$', '').isalnum() else f'({a})%', None
+        if which == 'NEG':
+            return (f'-{a}', -va if isinstance(va, int) and not isinstance(va, bool) else None) if a.replace('$', '').isalnum() \
+                else (f'-({a})', None)
+        if which == 'SUMROW':
+            return 'SUM(A1:B1)', None
+        if which == 'COUNTBLANK':
+            return f'COUNTBLANK({rng_})', None
+        return f'SUM(A1:B{rows + 1})', None
+
+    def formula(self, s, row, fixed=None):
+        r = self.rng
+        if fixed is not None:
+            return fixed, None
+        k = r.choice(['num', 'num', 'num', 'text', 'bool', 'date', 'lookup', 'criteria'])
+        if k == 'num':
+            t, v = self.num(s)
+            return '=' + t, (v if isinstance(v, (int, float)) and not isinstance(v, bool) else None)
+        rows = self.sheets[s]['nrows']
+        (a, _), (b, _) = self.num(s, 1), self.num(s, 1)
+        if k == 'text':
+            return '=' + r.choice([f'C1&"-"&{a}', f'CONCATENATE(C1,"x",{a})', 'LEFT(C1,2)', 'RIGHT(C1)', 'MID(C1,1,2)',
+                                   f'IFS({a}>{b},"gt",{a}<={b},"le")', f'ADDRESS(1,{r.choice([1, 26, 27, 702, 703])})',
+                                   f'IF({a}>1,"big","small")', f'TEXT({a},"0.00")', '"it\'s "&C1', '"say ""hi"""&C1']), None
+        if k == 'bool':
+            return '=' + r.choice([f'{a}>{b}', f'{a}<={b}', f'{a}<>{b}', f'AND({a}>0,{b}>0)', f'OR({a}=1,{b}=1,FALSE)', 'C1="apple"',
+                                   'C1=C1', f'({a}+1)={b}']), None
+        if k == 'date':
+            return '=' + r.choice(['DATE(2024,2,29)', 'EDATE(D1,1)', 'EOMONTH(D1,-1)', 'TODAY()', 'DATEDIF(DATE(2000,1,1),D1,"D")',
+                                   'DATEDIF(DATE(2000,1,31),D1,"M")', 'D1>DATE(2000,1,1)', 'NETWORKDAYS(DATE(2000,1,3),D1)',
+                                   'YEAR(TODAY())', 'D1=D1']), None
+        if k == 'lookup':
+            return '=' + r.choice([f'INDEX(A1:B{rows + 1},1,2)', f'INDEX(A1:A{rows + 1},1)', 'COLUMN()', 'COLUMN(C5)', 'COLUMN(AAA1)',
+                                   f'MATCH(A1,A1:A{rows + 1},0)', f'XMATCH(A1,A1:A{rows + 1})', f'VLOOKUP(A1,A1:B{rows + 1},2,FALSE)',
+                                   f'MATCH(A1;A1:A{rows + 1})', 'SEARCH("p",C1&"p")', 'VALUE("12")']), None
+        return '=' + r.choice([f'SUMIF(A1:A{rows + 1},">1")', f'SUMIFS(B1:B{rows + 1},A1:A{rows + 1},">0")',
+                               f'COUNTIFS(A1:A{rows + 1},">"&{a})', f'COUNTIFS(C1:C{rows + 1},"a*")', f'COUNTIFS(A1:A{rows + 1},B1)',
+                               f'SUMIF(A1:A{rows + 1},">0",B1:B{rows + 1})',
+                               f'COUNTIFS(C1:C{rows + 1},C1)']), None
+
+
+# ---------------------------------------------------------------------------------------------- adversarial formulas
+CORPUS = [
+    '=A1+B1*2', '=(A1+B1)*C1', '=-A1', '=A1%', '=B1%*2', '=A1&"x"&D1', '=A1>=B1', '=A1<>B1', '="it\'s"', '="say ""hi"""', '=1.5e3', '=TRUE',
+    '=FALSE()', '=$A$1+A$2+$B3', "='Other sheet'!A1+S!B2", '=SUM(A1:C3)', '=SUM(A1,B2;3)', '=SUM(A:A)', '=AVERAGE(A1:A3)', '=MIN(A1:C1)',
+    '=MAX(A1:A3,10)', '=ROUND(B2,1)', '=ROUNDUP(B2)', '=ROUNDUP(B2,)', '=ROUNDDOWN(B2, 1)', '=IF(A1>B1,"a","b")', '=IF(A1>B1,1)',
+    '=IFS(A1>5,"A",A1>0,"B")', '=IFERROR(A1/0,5)', '=AND(A1>0,B1>0)', '=OR(A1=1,FALSE)', '=SUMIF(A1:A3,">1")', '=SUMIF(A1:A3,">1",B1:B3)',
+    '=SUMIFS(A1:A3,B1:B3,">1",D1:D3,"a*")', '=COUNTIFS(A1:A3;">"&B1)', '=COUNTIFS(D1:D3,"????")', '=AVERAGEIFS(A1:A3,B1:B3,">0")',
+    '=COUNT(A1:C3;2;"x")', '=COUNTBLANK(A1:F1)', '=VLOOKUP(4,A1:C3,2,FALSE())', '=VLOOKUP(4,A1:C3,2)', '=MATCH(4;A1:A3;0)', '=MATCH(4,A1:A3)',
+    '=XMATCH(4;A1:A3;1;1)', '=XMATCH(4,A1:A3)', '=INDEX(A1:C3;2;2)', '=INDEX((A1:C1; A1:A3; A1:C3);3;3;3)', '=INDEX(A1:A3&B1:B3, 0)',
+    '=DATE(2024,2,29)', '=YEAR(E1)', '=MONTH(E1)+DAY(E2)', '=EDATE(E1,1)', '=EOMONTH(E1,-2)', '=DATEDIF(E1,E2,"YM")', '=TODAY()-E1',
+    '=NETWORKDAYS(E1,E2)', '=NETWORKDAYS(E1,E2,E1:E3)', '=LEFT(D1,2)', '=RIGHT(D1)', '=MID(D1,2,3)', '=SEARCH("p",D1,1)', '=CONCATENATE(D1," ",A1)',
+    '=TEXT(A1,"0.00")', '=VALUE("12,5")', '=ADDRESS(3;7;2;FALSE;"mid")', '=COLUMN()', '=COLUMN(B3)', '=COLUMN(C3:E3)',
+    '=IF(AND(A1>0,OR(B1>1,C1<2)),SUM(A1:A3)/MAX(B1:B3,1),ROUND(AVERAGE(A1:C1),2))',
+]
+
+UNSUPPORTED = [
+    '=ABS(-1)', '=LEN("abc")', '=NOW()', '=A1^2', '={1,2;3,4}', '=SUM(A1:A3 B1:B3)', '=INDIRECT("A1")', '=1=1=1', '=Table1[Col]', '=[1]Sheet!A1',
+    '=@A1', '=A1#', '=LET(x,1,x+1)', '=LAMBDA(x,x+1)(1)', '=1E+3', '=1e+3', '=.5', '=5.', '=1,5', '=#REF!+1', '=#N/A', '=A1:B2:C3', '=A:A:A', '=1:1',
+    '=$1:$3', '=SUM(1:1)', '=A0', '=A00', '=AAAA1', '=XFD1048576', '=XFE1', '=A1048577', '=A99999999999999999999', '=ZZZZZZZZ1', '=Nope!A1',
+    "='No such'!A1", '=S!A1:Other!B2', "='Other sheet'!A1:B2", '=S!A:A', '=SUM(S!A:B)', '=A1:A', '=A:A1', '=B3:A1', '=C1:A1', '=A3:A1', '=SUM(B3:A1)',
+    '=SUM(A1:XFD1)', '=COLUMN(XFD1)', '=COLUMN(AAAA1)', '=INDEX(A:C,2,2)', '=VLOOKUP(1,A:B,2,0)', '=sum(A1:A3)', '=Sum(A1)',
+    '=if(1,2,3)', '=true', '=eval("1")', '=__import__("os")', '=a1', '=A1.B1', '=A1 B1', '=A1!B1', '=!A1', "=''!A1", "='", '="', '="a', '=a"',
+    '="a""', '=""""', '=(', '=)', '=()', '=,', '=;', '=&', '=%', '=1%%', '=--1', '=+-+1', '=1++1', '=1+*2', '=*1', '=1/', '=1//2', '=<>', '=1<>',
+    '=>=1', '=1=', '==', '==1', '= 1', '=1 ', '=\n1', '=1\n+\n2', '=\t1', '=SUM', '=SUM(', '=SUM()', '=SUM(,)', '=SUM(1,)', '=SUM(,1)', '=SUM((1)',
+    '=SUM(1))', '=IF()', '=IF(1)', '=IF(1,2,3,4)', '=IF(,,)', '=IFS(1)', '=IFS(1,2,3)', '=ROUND(1)', '=ROUND(1,2,3)', '=DATE(1,2)', '=TODAY(1)',
+    '=COLUMN(1)', '=COLUMN("a")', '=INDEX()', '=INDEX(A1:B2)', '=INDEX(1,1)', '=MATCH()', '=MATCH(1)', '=MATCH(1,2)', '=XMATCH(1)', '=VLOOKUP(1,2,3)',
+    '=VLOOKUP(1,A1,1)', '=SUMIF(1,2)', '=SUMIF(A1:A3)', '=SUMIFS(A1:A3)', '=SUMIFS(A1:A3,B1:B3)', '=COUNTIFS()', '=COUNTIFS(A1:A3)',
+    '=COUNTIFS(1,1)', '=AVERAGEIFS(A1:A3)', '=NETWORKDAYS(1)', '=ADDRESS(1)', '=ADDRESS()', '=LEFT()', '=MID(1)', '=TEXT(1)', '=CONCATENATE()',
+    '=COUNT()', '=COUNT(A1:A3,B1:B3)', '=COUNT(A1)', '=COUNT(1+1)', '=COUNT((A1:A3))', '=COUNT(-A1:A3)', '=COUNT(SUM(A1:A3))', '=COUNTBLANK()',
+    '=MIN()', '=AND()', '=OR(,)', '=EDATE(1)', '=EOMONTH()', '=DATEDIF(1,2)', '=YEAR()', '=VALUE()', '=SEARCH(1)', '=IFERROR(1)', '=IFERROR()',
+    '=A1:B2', '=A1:B2+1', '=-A1:B2', '=A1:B2%', '=A1:A3&B1:B3', '=A1:A3=B1:B3', '=SUM(A1:A3)%', '="a*"', '="a?"&1', '="~*"', '=IF("a*"="a*",1,2)',
+    '=SUM("a*")', '=1~2', '=SUM(1~2)', '=A1~B1', '=SUMIF(A1:A3,"*")', '=SUMIF(A1:A3,A1:A3)', '=SUMIF(A1,">1",B1)', '=SUMIF(A1:C3,">1",A1)',
+    '=SUMIF(A:A,">1")', '=SUMIF(A1:A3,">1",B:B)', '=SUMIF(A1:A3,1+1)', '=SUMIF(A1:A3,">"&)', '=COUNTIFS(A1:A3,">"&B1&"x")',
+    '=COUNTIFS(A:A,1)', '=INDEX((A1:C1),1)', '=INDEX((A1:C1;A1:A3),1,1,3)', '=INDEX(A1:A3&B1:B3&C1:C3,1)', '=INDEX(A1:C3,0)', '=INDEX(A1:C3,9,9)',
+    '=MATCH(1,A1:A3&B1:B3,0)', '=TRUE()()', '=TRUE(1)', '=TRUEx', '=FALSE1', '=1TRUE', '=1A1', '=A1A1', '=A1(1)', '=1(2)', '=(1)(2)', '=SUM(1)(2)',
+    '=1 2', '="a" "b"', '=A1 A1', '=IFX(1)', '=XIF(1,2)', '=IFERRORS(1,2)', '=SUMIFSS(1)', '=TODAYS()', '=DAYS(1,2)', '=DATEVALUE("1")',
+    '=ROUNDUPX(1)', '=COUNTA(A1)', '=AVERAGEIF(A1:A3,1)', '=COUNTIF(A1:A3,1)', '=MAXIFS(A1:A3,B1:B3,1)', '=XLOOKUP(1,A1:A3,B1:B3)', '=HLOOKUP(1,A1:C3,2)',
+]
+
+SOUP = ['1', '2.5', '1e3', '"a"', '"a*"', '""', 'TRUE', 'FALSE()', 'A1', '$B$2', 'A1:B2', 'A1:A3', 'A:A', 'S!A1', "'Other sheet'!A1", 'Nope!A1', 'A0',
+        'AAAA1', 'H1', 'H2', '(', ')', ',', ';', '+', '-', '*', '/', '&', '%', '=', '<>', '<', '>=', ':', '!', '$', "'", '"', ' ', '\n', '~', '^', '{', '}',
+        '#REF!', '@', '.', 'e', 'SUM', 'SUM(', 'IF(', 'IFS(', 'IFERROR(', 'ROUND(', 'ROUNDUP(', 'COUNT(', 'COUNTIFS(', 'SUMIF(', 'SUMIFS(', 'INDEX(',
+        'MATCH(', 'XMATCH(', 'VLOOKUP(', 'COLUMN(', 'TODAY()', 'DATE(', 'AND(', 'CONCATENATE(', 'ADDRESS(', 'NETWORKDAYS(', 'AVERAGEIFS(', 'LEFT(',
+        'ABS(', 'eval(', 'é', 'Я', ' ', '\x0b', '\\', '`', '|', '?', '[', ']']
+
+
+def _mutations(rng, f, k):
+    """k random single edits of a well-formed formula: delete / duplicate / replace a character, swap neighbours"""
+    out = []
+    for _ in range(k):
+        i = rng.randrange(1, len(f))
+        how = rng.choice(['del', 'dup', 'rep', 'swap', 'ins'])
+        if how == 'del':
+            out.append(f[:i] + f[i + 1:])
+        elif how == 'dup':
+            out.append(f[:i] + f[i] + f[i:])
+        elif how == 'rep':
+            out.append(f[:i] + rng.choice('(),;"\'!:$%&+-*/<>=1A ') + f[i + 1:])
+        elif how == 'swap' and i + 1 < len(f):
+            out.append(f[:i] + f[i + 1] + f[i] + f[i + 2:])
+        else:
+            out.append(f[:i] + rng.choice('(),;"\'!:$%&=1A\n') + f[i:])
+    return out
+
+
+# ---------------------------------------------------------------------------------------------- special workbooks
+def _special_specs(thorough=False):
+    """constants of every type openpyxl delivers, unusual titles, ragged rows, order of sheets, extreme positions"""
+    out = []
+
+    def wb(family, sheets, **kw):
+        sp = {'sheets': sheets, 'safety': kw.pop('safety', True), 'family': family}
+        sp.update(kw)
+        out.append(sp)
+    consts = [0, 1, -5, 2 ** 40, 12345678901234567890, {'$f': '1.5'}, {'$f': '1e+300'}, {'$f': '1e-300'}, {'$f': '0.1'}, {'$f': '-0.0'},
+              {'$f': '1e+16'}, {'$f': '123456789.123456789'}, True, False, 'text', "it's", 'a"b', 'a\\b', 'line\nbreak', 'tab\tx', ' ', '#N/A',
+              '#DIV/0!', 'Привет 😀', '{x}', '{0}', '{functions}', '%s', "'''", '"""', '\\n', "\\'", 'x' * 5000, "'=1+1", 'TRUE', '1', 'None',
+              {'$dt': [2020, 1, 2, 3, 4, 5, 0]}, {'$dt': [2020, 1, 2, 3, 4, 5, 678000]}, {'$d': [2020, 1, 2]}, {'$tm': [3, 4, 5, 0]},
+              {'$td': [1, 21605]}, {'$td': [0, 59]}, {'$dt': [1900, 1, 1, 0, 0, 0, 0]}, {'$dt': [1899, 12, 31, 0, 0, 0, 0]},
+              {'$dt': [2050, 6, 1, 0, 0, 0, 0]}, {'$dt': [2051, 1, 1, 0, 0, 0, 0]}, {'$dt': [9999, 12, 31, 0, 0, 0, 0]},
+              {'$dt': [1900, 2, 28, 0, 0, 0, 0]}, {'$dt': [1900, 3, 1, 0, 0, 0, 0]}]
+    # every constant alone (so that one bad type cannot hide behind another) and all together
+    for i, c in enumerate(consts):
+        wb('constant', [{'title': 'S', 'cells': [[1, 1, c], [2, 1, '=A1']]}], entries=[{'cell': [0, 1, 0], 'deps': [[0, 0, 0]]}])
+    wb('constant', [{'title': 'S', 'cells': [[1 + i % 7, 1 + i // 7, c] for i, c in enumerate(consts)]}])
+    wb('constant', [{'title': 'S', 'cells': [[1 + i % 7, 1 + i // 7, c] for i, c in enumerate(consts)]}], safety=False)
+    wb('constant.array_formula', [{'title': 'S', 'cells': [[1, 1, 2], [2, 1, {'$array': ['B1:B2', '=A1*2']}]]}], strict=True)
+    wb('constant.array_formula', [{'title': 'S', 'cells': [[1, 1, 2], [2, 1, {'$array': ['B1:B2', '=SUM(']}]]}])
+    wb('constant.array_formula', [{'title': 'S', 'cells': [[1, 1, 2], [2, 1, {'$array': ['B1:B2', ' =A1+1 ']}]]}])
+    wb('constant.datatable_formula', [{'title': 'S', 'cells': [[1, 1, 2], [2, 2, {'$datatable': {'ref': 'B2:C3', 'dt2D': '1', 'r1': 'A1', 'r2': 'A2'}}]]}])
+    wb('constant.infinite_number', [{'title': 'S', 'cells': [[1, 1, {'$rawnum': '1e999'}]]}])
+    wb('constant.infinite_number', [{'title': 'S', 'cells': [[1, 1, {'$rawnum': '-1E999'}]]}])
+    wb('constant.suspicious_text', [{'title': 'S', 'cells': [[1, 1, 'os.system(1)'], [2, 1, 5]]}], safety=True)
+    wb('constant.suspicious_text', [{'title': 'S', 'cells': [[1, 1, 'os.system(1)'], [2, 1, 5]]}], safety=False)
+    wb('constant.formula_like_text', [{'title': 'S', 'cells': [[1, 1, '=']]}])
+    # titles: each alone, referenced from a second sheet in Excel's own quoting, and the sheet order
+    for t in TITLES:
+        q = _quote_title(t)
+        wb('title', [{'title': t, 'cells': [[1, 1, 4], [2, 1, '=A1+1'], [3, 1, f'={q}!A1+2']]},
+                     {'title': 'zz', 'cells': [[1, 1, f'={q}!A1*2'], [2, 2, '=A1+1']]}], strict=True,
+           expect=[[0, 1, 0, 5], [0, 2, 0, 6], [1, 0, 0, 8], [1, 1, 1, 9]], entries=[{'cell': [1, 1, 1], 'deps': [[1, 0, 0], [0, 0, 0]]},
+                                                                                  {'cell': [t, 'C', '1'], 'deps': [[0, 0, 0]]}])
+    wb('title', [{'title': t, 'cells': [[1, 1, i]]} for i, t in enumerate(TITLES)])
+    wb('title', [{'title': t, 'cells': [[1, 1, i]]} for i, t in enumerate(reversed(TITLES))], safety=False)
+    wb('title.order', [{'title': 'b', 'cells': [[1, 1, 1]]}, {'title': 'a', 'cells': [[2, 2, 2]]}, {'title': 'c', 'cells': []},
+                       {'title': 'B', 'cells': [[1, 3, '=a!B2+b!A1']]}], strict=True, expect=[[3, 0, 2, 3]])
+    # shapes: empty workbook, empty sheet between others, ragged rows, gaps, far cells
+    wb('shape.empty', [{'title': 'S', 'cells': []}])
+    wb('shape.empty', [{'title': 'S', 'cells': []}, {'title': 'T', 'cells': [[1, 1, '=S!A1+1'], [2, 1, '=S!C7']]}], strict=True,
+       expect=[[1, 0, 0, 1]])
+    wb('shape.ragged', [{'title': 'S', 'cells': [[1, 1, 1], [2, 1, 2], [3, 1, 3], [4, 1, 4], [1, 2, 10], [1, 3, 100], [2, 3, 200],
+                                                 [6, 1, '=D2+1'], [6, 2, '=SUM(A2:D2)'], [6, 3, '=SUM(C1:C3)+D3'], [6, 4, '=SUM(A1:D3)'],
+                                                 [7, 4, '=B2&"x"'], [7, 5, '=SUM(B:B)'], [7, 6, '=INDEX(A1:D3,2,3)+1'],
+                                                 [8, 1, '=VLOOKUP(10,A1:D3,4,FALSE)'], [8, 2, '=COUNTBLANK(A2:E2)']]}], strict=True,
+       expect=[[0, 5, 0, 1], [0, 5, 1, 10], [0, 5, 2, 3], [0, 5, 3, 320], [0, 6, 4, 202], [0, 5 + 1, 5, 1]],
+       entries=[{'cell': [0, 5, 0], 'deps': []}, {'cell': [0, 5, 1], 'deps': [[0, 0, 1]]}, {'cell': [0, 5, 3], 'deps': [[0, 0, 0], [0, 1, 2]]},
+                {'cell': ['S', 'G', '6'], 'deps': [[0, 0, 0]]}],
+       overrides=[[0, 3, 1, 5], [0, 2, 2, 7], [0, 9, 9, 1]])
+    wb('shape.ragged', [{'title': 'S', 'cells': [[5, 1, 1], [1, 2, 2], [3, 4, '=E2+A1+C3+1'], [1, 6, '=SUM(A1:E5)']]},
+                        {'title': 'T', 'cells': [[1, 1, '=S!E2+S!B1+1'], [2, 3, '=E2+A1+C3+1'], [1, 6, '=SUM(A1:E5)']]}], strict=True,
+       expect=[[0, 2, 3, 1], [0, 0, 5, 4], [1, 0, 0, 1], [1, 1, 2, 2], [1, 0, 5, 3]])
+    wb('shape.gaps', [{'title': 'S', 'cells': [[2, 5, 1], [4, 9, '=B5+1'], [3, 120, '=D9+B5'], [1, 1100, '=SUM(B1:B200)']]}], strict=True,
+       expect=[[0, 3, 8, 2], [0, 2, 119, 3], [0, 0, 1099, 1]], entries=[{'cell': [0, 2, 119], 'deps': [[0, 3, 8], [0, 1, 4]]}],
+       overrides=[[0, 1, 4, 10], [0, 1, 150, 5]])
+    wb('shape.far', [{'title': 'S', 'cells': [[16384, 1048576 if thorough else 30000, 1]]}])
+    wb('shape.far', [{'title': 'S', 'cells': [[16384, 2000, 1], [1, 1, '=XFD2000+1'], [703, 3, '=A1+1'], [27, 2, '=AAA3+ZZ9+XFD1048576+A1048576']]}], strict=True,
+       expect=[[0, 0, 0, 2], [0, 702, 2, 3], [0, 26, 1, 3]], entries=[{'cell': [0, 26, 1], 'deps': [[0, 702, 2], [0, 0, 0], [0, 16383, 1999]]}])
+    wb('shape.wide', [{'title': 'S', 'cells': [[c, 1, c] for c in range(1, 800)] + [[1, 2, f'=SUM(A1:{_col(799)}1)'], [2, 2, '=ZZ1+AAA1']]}], strict=True,
+       expect=[[0, 0, 1, 799 * 800 // 2], [0, 1, 1, 702 + 703]])
+    wb('shape.tall', [{'title': 'S', 'cells': [[1, r, r] for r in range(1, 1201)] + [[2, 1, '=SUM(A1:A1200)'], [2, 2, '=A101+A1001'],
+                                                                                     [3, 1, '=SUM(A:A)'], [3, 2, '=COUNTIFS(A1:A1200,">1000")']]}],
+       strict=True, expect=[[0, 1, 0, 1200 * 1201 // 2], [0, 1, 1, 1102], [0, 2, 0, 1200 * 1201 // 2], [0, 2, 1, 200]])
+    # the same formula text / the same unqualified reference on two sheets, references in both directions
+    wb('two_sheets', [{'title': 'One', 'cells': [[1, 1, 1], [2, 1, '=A1+1'], [3, 1, '=SUM(A1:B1)'], [4, 1, '=Two!B1+B1']]},
+                      {'title': 'Two', 'cells': [[1, 1, 10], [2, 1, '=A1+1'], [3, 1, '=SUM(A1:B1)'], [4, 1, '=One!B1+B1']]}], strict=True,
+       expect=[[0, 1, 0, 2], [1, 1, 0, 11], [0, 2, 0, 3], [1, 2, 0, 21], [0, 3, 0, 13], [1, 3, 0, 13]],
+       entries=[{'cell': [1, 2, 0], 'deps': [[1, 0, 0], [1, 1, 0]]}, {'cell': ['Two', 'D', '1'], 'deps': [[0, 1, 0], [1, 1, 0], [0, 0, 0], [1, 0, 0]]}],
+       overrides=[[1, 0, 0, 100], [0, 0, 0, 5]])
+    # cycles (direct, through a range, across sheets) must be library exceptions
+    wb('cycle', [{'title': 'S', 'cells': [[1, 1, '=A1']]}])
+    wb('cycle', [{'title': 'S', 'cells': [[1, 1, '=B1'], [2, 1, '=SUM(A1:A3)']]}])
+    wb('cycle', [{'title': 'S', 'cells': [[1, 1, '=T!A1']]}, {'title': 'T', 'cells': [[1, 1, '=S!A1+1']]}])
+    wb('cycle', [{'title': 'S', 'cells': [[1, 1, '=B1'], [2, 1, '=A1'], [3, 1, 5]]}], entry=[0, 2, 0])
+    return out
+
+
+# ---------------------------------------------------------------------------------------------- driver
+def _task(t):
+    kind, job = t
+    try:
+        return {'spec': _examine, 'bulk': _examine_bulk, 'ladder': _examine_ladder, 'reuse': _examine_reuse,
+                'executor_reuse': _examine_executor_reuse}[kind](job)
+    except _Timeout:
+        R = Res()
+        return R.dump()
+    except Exception as e:  # a defect of the monitor itself must be visible, not swallowed
+        import traceback
+        R = Res()
+        R.fail('outcome', 'C06.monitor_error', f'{kind}: {type(e).__name__}: {e} {traceback.format_exc()[-300:]}', {'kind': 'none'})
+        return R.dump()
+
+
+def _chunks(xs, n):
+    return [xs[i:i + n] for i in range(0, len(xs), n)]
+
+
+def _tasks(tier, seed):
+    rng = random.Random(seed)
+    thorough = tier == 'thorough'
+    tasks, scope = [], {}
+    # long-running first
+    ladders = dict(LADDERS)
+    if thorough:
+        ladders = {k: sorted(set(v) | {6, 12, 24, 48}) if max(v) <= 64 and k not in ('ifs_pairs',) else v for k, v in LADDERS.items()}
+    for fam, sizes in ladders.items():
+        tasks.append(('ladder', {'family': fam, 'sizes': sizes}))
+    scope['ladders'] = ladders
+    # one Parser, several requests
+    n = len(REUSE_REQUESTS)
+    pairs = [list(p) for p in itertools.product(range(n), repeat=2)]
+    triples = [list(p) for p in itertools.product(range(n), repeat=3)]
+    if not thorough:
+        triples = rng.sample(triples, 600)
+    seqs = pairs + triples
+    for i, ch in enumerate(_chunks(seqs, 150)):
+        tasks.append(('reuse', {'sequences': ch, 'verify_alone': i == 0}))
+    tasks.append(('executor_reuse', {}))
+    scope['reuse'] = (len(pairs), len(triples))
+    # special workbooks
+    specials = _special_specs(thorough)
+    for sp in specials:
+        tasks.append(('spec', sp))
+    scope['specials'] = len(specials)
+    # generator
+    ngen = 6000 if thorough else 450
+    g = Gen(rng)
+    for i in range(ngen):
+        tasks.append(('spec', g.workbook(i)))
+    scope['generator'] = ngen
+    # corpus: each formula whole-file (strict: well-formed, type-correct) ...
+    for i, f in enumerate(CORPUS):
+        sp = _bulk_spec(f, 1 + i % 3, 'corpus', safety=bool(i % 2), entry=False)
+        sp['strict'] = f not in ('=SUM(A:A)',) and 'TODAY()-E1' not in f
+        tasks.append(('spec', sp))
+    for i, f in enumerate(UNSUPPORTED):
+        if thorough or i % 3 == 0:
+            tasks.append(('spec', _bulk_spec(f, 1 + i % 3, 'unsupported_or_malformed', safety=False, entry=False)))
+    # ... and as entry points in bulk: unsupported / malformed formulas, every prefix, single edits, token soups
+    bulk = {'unsupported_or_malformed': list(UNSUPPORTED), 'truncated': [], 'edited': [], 'soup': []}
+    for f in CORPUS:
+        bulk['truncated'] += [f[:k] for k in range(1, len(f))]
+        bulk['edited'] += _mutations(rng, f, 40 if thorough else 4)
+    alphabet = SOUP if thorough else SOUP[:40]
+    bulk['soup'] += ['=' + a for a in SOUP] + ['=' + a + b for a in alphabet for b in alphabet]
+    nsoup = 60000 if thorough else 1500
+    for _ in range(nsoup):
+        k = rng.choice([3, 3, 4, 4, 5, 6, 7, 8])
+        bulk['soup'].append('=' + ''.join(rng.choice(SOUP) for _ in range(k)))
+    scope['bulk'] = {k: len(v) for k, v in bulk.items()}
+    for fam, fs in bulk.items():
+        fs = [f for f in dict.fromkeys(fs) if len(f) > 1 and '\x0b' not in f or f == '=']
+        for ch in _chunks(fs, 40):
+            tasks.append(('bulk', {'formulas': ch, 'family': fam}))
+    return tasks, scope
+
+
+def _normal_key(key):
+    m = re.match(r'^(C06\.[a-z_]+(?:\.[A-Za-z_]+)*?)\.nest\.([a-z_]+)$', key)
+    if m:
+        return m.group(1) + ('.nesting' if m.group(1).startswith('C06.hang') else '.long_formula'), m.group(2)
+    return key, None
+
+
+def run(tier='quick', seed=0):
+    t0 = time.time()
+    tasks, scope = _tasks(tier, seed)
+    total = Res()
+    fails = {}
+    also = {}
+    with multiprocessing.Pool(16) as pool:
+        for res in pool.imap_unordered(_task, tasks, chunksize=1):
+            for c in CHECKS:
+                total.counts[c] += res['counts'][c]
+                total.nontrivial[c] += res['nontrivial'][c]
+                for s in res['samples'][c]:
+                    total.sample(c, s)
+            for k, v in res['outcomes'].items():
+                total.outcomes[k] = total.outcomes.get(k, 0) + v
+            for f in res['fails']:
+                key, fam = _normal_key(f['key'])
+                if fam:
+                    also.setdefault((f['check'], key), set()).add(fam)
+                f = dict(f, key=key)
+                old = fails.get((f['check'], key))
+                if old is None or f['size'] < old['size']:
+                    fails[(f['check'], key)] = f
+    secs = time.time() - t0
+    b = scope['bulk']
+    bounds = {
+        'outcome': f"{scope['generator']} generator workbooks (1-3 sheets, {len(TITLES)} titles, ragged rows of ints / floats / texts / dates / "
+                   f"times / booleans / blanks, 1-12 well-typed formulas over {len(CORPUS)} function shapes, safety on and off) + "
+                   f"{scope['specials']} special workbooks (every constant type alone and together, array / data-table formulas, infinite "
+                   f"numbers, every title alone and all together, empty / ragged / gapped / far (XFD1048576) / wide (799 columns) / tall "
+                   f"(1200 rows) sheets, cycles) + {len(CORPUS)} well-formed and {len(UNSUPPORTED)} unsupported or malformed formulas whole-file "
+                   f"+ entry requests for {b['unsupported_or_malformed']} unsupported, {b['truncated']} prefixes (every truncation of every corpus "
+                   f"formula), {b['edited']} single-character edits, {b['soup']} token soups (all words and pairs over "
+                   f"{len(SOUP)} lexemes, random 3-8 lexeme strings); limit {LIMIT:.0f} s per request",
+        'loadable': 'every request of C06.monitor.outcome / nesting / entry_point that returned text',
+        'members': 'every returned text: all cells of the workbook (whole-file) or the entry cell and the non-blank cells it reads '
+                   '(entry request), at most 400 evaluated per text',
+        'file_vs_object': 'every whole-file text of the generator, special and corpus workbooks: written file vs class object, <= 150 cells, '
+                          '0-3 overrides (data cells, blank cells, cells past a short row, cells beyond the used range), get_sheet of sheets '
+                          'up to 400 cells, three file names; one Executor switched between 4 class/file routes (24 orders)',
+        'entry_point': 'up to 4 formula cells of every generator workbook and the listed cells of the special workbooks requested as '
+                       'entry point (int and text coordinates) on a new Parser',
+        'parser_reuse': f"{len(REUSE_REQUESTS)} requests (2 good workbooks, malformed, unsupported, unsafe with safety on/off, cyclic; whole-file "
+                        f"and entry; get_translation, write_translation, get twice): all {scope['reuse'][0]} ordered pairs and "
+                        f"{scope['reuse'][1]} {'(all)' if tier == 'thorough' else '(sampled)'} triples on one Parser",
+        'nesting': 'families ' + ', '.join(f'{k} {v}' for k, v in scope['ladders'].items()) + ' (sizes within Excel\'s own limits: 64 levels, '
+                   '255 arguments, 8192 characters; reference_chain = column of n cells each reading the one above); a family stops at its '
+                   'first size that exceeds the limit',
+    }
+    rules = {
+        'outcome': 'one evaluation = one Parser.get_translation request; passes if it ends within the limit with text or an E2PyclException; '
+                   'non-trivial = text returned',
+        'loadable': 'one evaluation = one returned text: compile, exec, ExcelInPython(), get_titles() == {title: position}, get_sheets_size() == '
+                    'last used row/column per sheet (from the specification), no member defined twice, no member referring to an undefined '
+                    'member or attribute',
+        'members': 'one evaluation = one translated cell evaluated through Executor.get_cell (+ one per text for the presence of all members); '
+                   'constants must come back identical (type and value, openpyxl full-mode read-back as reference); formulas of the '
+                   'well-typed families must not raise, other formulas must not raise NameError / AttributeError / RecursionError; '
+                   'listed expected values (integer arithmetic, sums) must match; evaluation timeouts are skipped',
+        'file_vs_object': 'one evaluation = one cell (or sheet, or shape) compared between Executor(class_file=written file) and '
+                          'Executor(class_object=exec of the text); plus file content == text',
+        'entry_point': 'one evaluation = one entry request (all clauses above) or one comparison of the entry member with the whole-file value',
+        'parser_reuse': 'one evaluation = one request inside a sequence; its answer (text, or exception class) must equal the answer of a new '
+                        'Parser to the same request; non-trivial = not the first request of the sequence',
+        'nesting': 'one evaluation = one request; all clauses above apply to returned text',
+    }
+    checks = []
+    for c in CHECKS:
+        fl = []
+        for (chk, key), f in sorted(fails.items(), key=lambda x: x[0][1]):
+            if chk != c:
+                continue
+            what = f['what']
+            if (chk, key) in also and len(also[(chk, key)]) > 1:
+                what += f' (families affected: {", ".join(sorted(also[(chk, key)]))})'
+            fl.append({'key': key, 'what': what, 'replay': f['replay']})
+        checks.append({'name': f'C06.monitor.{c}', 'bound': bounds[c], 'rule': rules[c], 'exhaustive': False,
+                       'evaluations': total.counts[c], 'distinct_nontrivial': total.nontrivial[c], 'failures': fl[:25],
+                       'samples': total.samples[c][:3] + ([{'outcomes': total.outcomes}] if c == 'outcome' else []), 'seconds': secs})
+    return {'checks': checks}
+
+
+def replay(payload):
+    kind = (payload or {}).get('kind')
+    if kind == 'spec':
+        res = _examine(payload['spec'])
+        txt = '; '.join(f"{f['key']}: {f['what']}" for f in res['fails'])
+        return {'fails': bool(res['fails']), 'text': f"{_short(payload['spec'])}: " + (txt or 'all clauses hold') + f" {res['outcomes']}"}
+    if kind == 'reuse':
+        res = _examine_reuse({'sequences': [payload['sequence']]})
+        txt = '; '.join(f"{f['key']}: {f['what']}" for f in res['fails'])
+        return {'fails': bool(res['fails']), 'text': txt or f"sequence {payload['sequence']} answers like new Parsers"}
+    if kind == 'executor_reuse':
+        res = _examine_executor_reuse({})
+        return {'fails': bool(res['fails']), 'text': '; '.join(f['what'] for f in res['fails']) or 'one Executor behaves like new ones'}
+    return {'fails': False, 'text': 'nothing to replay'}
